@@ -206,3 +206,36 @@ def run(ck):
     ck.ob('C20.session', 'C20.session/untouched-unless-accepted', not bad20, hp.loc(bad20[0][1]) if bad20 else hp.loc(),
           'handle_pending_handshake reads or writes session state (%d sites) only past acceptance->accepted%s'
           % (len(touch), '' if not bad20 else ' — reached without it: ' + ', '.join(l for l, _n in bad20[:4])), fails[0][3] if fails else None)
+
+    # ---- the verdict recorded for an attempt is this attempt's: the local HandshakeRecord starts empty (success == false) and is
+    # never overwritten as a whole by the stored record of an earlier attempt ------------------------------------------------------
+    recs = [ph.nodes[i] for i in ph.walk() if ph.nodes[i]['k'] == 'VarDecl' and (ph.nodes[i].get('t') or '').replace('const ', '').endswith('Node::HandshakeRecord')]
+    if len(recs) != 1:
+        raise AnalysisBroken('perform_handshake: the local HandshakeRecord was not found')
+    rec_d = recs[0]['d']
+    ini = ph.strip(recs[0]['init']) if recs[0].get('init') is not None and recs[0]['init'] >= 0 else None
+    empty_init = ini is not None and ph.nodes[ini]['k'] in ('InitListExpr', 'CXXConstructExpr', 'CXXTemporaryObjectExpr', 'ImplicitValueInitExpr') and \
+        not any(ph.nodes[j]['k'] in ('DeclRefExpr', 'MemberExpr') for j in ph.walk(ini))
+    whole = []
+    for i in ph.walk():
+        nd = ph.nodes[i]
+        if nd['k'] in ('CXXOperatorCallExpr', 'BinaryOperator') and nd.get('op') == '=':
+            lhs = ph.kids(i)[1 if nd['k'] == 'CXXOperatorCallExpr' else 0]
+            ln = ph.nodes[ph.strip(lhs, casts=False)]
+            if ln['k'] == 'DeclRefExpr' and ln.get('d') == rec_d:
+                whole.append(i)
+    ck.ob('C20.reject', 'C20.reject/record-starts-empty', empty_init and not whole, ph.loc(whole[0]) if whole else ph.loc(),
+          'the HandshakeRecord written back by perform_handshake is value-initialised in this call and never assigned as a whole (its success flag is '
+          'false unless this attempt sets it): a rejected attempt cannot be stored as a success inherited from an earlier record')
+
+    # ---- lowering the reputation cannot be skipped: record_failure reaches its score update on every path ---------------------------------
+    PR = ck.prog(['src/network/ReputationManager.cpp'])
+    rf = PR.fn('ephemeralnet::network::ReputationManager::record_failure')
+    ck.touch(rf)
+    from sa.flow import field_accesses as _fa20b
+    from sa.paths import Cfg as _Cfg20
+    sw = [i for i, m_, w_ in _fa20b(rf) if w_ and m_.endswith('ReputationManager::Entry::score')]
+    cfg_rf = _Cfg20.of(rf)
+    wit_rf = cfg_rf.must_pass_from((cfg_rf.entry, -1), lambda e, s_=set(sw): e in s_ or any(rf.is_in(x, e) for x in s_)) if sw else ['no write of Entry::score']
+    ck.ob('C20.reject', 'C20.reject/record_failure-always-lowers', wit_rf is None, rf.loc(),
+          'ReputationManager::record_failure updates the peer\'s score on every path (no capacity or lookup condition returns first)', wit_rf)
